@@ -37,6 +37,10 @@ pub struct TaskCfg {
     /// (stgen's own programs call their POUs in fewer than one case in seven).
     #[serde(default)]
     pub inject_calls: bool,
+    /// Put the injected calls at the start of Main instead of the end (then the first
+    /// statement of a cycle - where a pause requested between two cycles lands - is a call).
+    #[serde(default)]
+    pub inject_front: bool,
 }
 
 impl TaskCfg {
@@ -50,6 +54,7 @@ impl TaskCfg {
             drop: vec![0],
             repeat: 1,
             inject_calls: false,
+            inject_front: false,
         }
     }
 
@@ -76,6 +81,7 @@ impl TaskCfg {
         }
         let repeat = 1 + r.pick(max_repeat.max(1));
         let inject_calls = !r.chance(1, 5);
+        let inject_front = inject_calls && r.chance(1, 2);
         TaskCfg {
             ninst,
             wrap,
@@ -85,6 +91,7 @@ impl TaskCfg {
             drop,
             repeat,
             inject_calls,
+            inject_front,
         }
     }
 
@@ -197,6 +204,8 @@ pub struct World {
     pub base_errors: Vec<String>,
     /// Distinct executed statement ids in order of first execution.
     pub executed: Vec<u32>,
+    /// Those executed at call depth >= 1 at least once.
+    pub executed_deep: Vec<u32>,
     /// All statements that have a location.
     pub all_stmts: Vec<u32>,
     pub faulted: bool,
@@ -257,7 +266,7 @@ fn simple_literal(ty: &Ty, k: usize) -> Option<Expr> {
 /// Prepend `fbX_k();` for every FB instance of Main (FBs without VAR_IN_OUT: an invocation
 /// may leave inputs and outputs unbound) and one positional call statement per FUNCTION
 /// (literal inputs, distinct Main variables for outputs / in-outs).
-fn inject_calls(prog: &mut Program, omit: &[u32]) -> Vec<u32> {
+fn inject_calls(prog: &mut Program, omit: &[u32], front: bool) -> Vec<u32> {
     let mut max_id = 0u32;
     for p in &prog.pous {
         walk_stmts(&p.body, &mut |s| max_id = max_id.max(s.id));
@@ -348,7 +357,11 @@ fn inject_calls(prog: &mut Program, omit: &[u32]) -> Vec<u32> {
     }
     new.retain(|s| !omit.contains(&s.id));
     let ids = new.iter().map(|s| s.id).collect();
-    main.body.extend(new);
+    if front {
+        main.body.splice(0..0, new);
+    } else {
+        main.body.extend(new);
+    }
     ids
 }
 
@@ -424,7 +437,7 @@ fn wrap_once(
 ) -> Result<(Program, Vec<(u32, u32)>, Vec<u32>, u32), String> {
     let mut prog = base.clone();
     let injected = if cfg.inject_calls {
-        inject_calls(&mut prog, omit)
+        inject_calls(&mut prog, omit, cfg.inject_front)
     } else {
         Vec::new()
     };
@@ -782,6 +795,13 @@ pub fn prepare(
             executed.push(p.stmt);
         }
     }
+    let mut executed_deep = Vec::new();
+    let mut seen_deep = BTreeSet::new();
+    for p in &pos {
+        if p.depth >= 1 && seen_deep.insert(p.stmt) {
+            executed_deep.push(p.stmt);
+        }
+    }
     let mut threads = Vec::new();
     for i in &order {
         if !threads.contains(&inst_thread[*i]) {
@@ -803,6 +823,7 @@ pub fn prepare(
         base_states,
         base_errors,
         executed,
+        executed_deep,
         all_stmts,
         faulted,
         max_depth,
@@ -830,6 +851,22 @@ impl World {
             let p = &self.pos[*q];
             p.thread == thread && max_depth.map(|d| p.depth <= d).unwrap_or(true)
         })
+    }
+
+    /// First position of cycle `c` or a later one (`pos.len()` when there is none).
+    pub fn first_of_cycle(&self, c: usize) -> usize {
+        self.pos
+            .iter()
+            .position(|p| p.cycle >= c)
+            .unwrap_or(self.pos.len())
+    }
+
+    /// Does the statement at position `q` enter a call (the next executed statement is deeper)?
+    pub fn enters_call(&self, q: usize) -> bool {
+        match (self.pos.get(q), self.pos.get(q + 1)) {
+            (Some(a), Some(b)) => b.depth > a.depth && b.cycle == a.cycle,
+            _ => false,
+        }
     }
 
     pub fn describe(&self, q: usize) -> String {
